@@ -2,8 +2,9 @@ import Driver.FilterTables
 /-!
 Driver for C20 (one case = one `restic restore` with pattern flags, optionally `--delete` into a
 pre-populated target).
-  node <hex path> f|d|o <size>     listing of the snapshot
+  node <hex path> f|d|o|s <size>   listing of the snapshot (s = socket)
   ex|iex|in|iin <hex pattern>      flag values
+  exf|iexf|inf|iinf <hex line>*    one record per pattern file (its lines)
   delete 0|1
   pre <hex path> f|d|o             entries in the target before the restore ("/rel/path")
   clean / glob                     stdlib oracle tables
@@ -24,21 +25,23 @@ def handleC20 (c : Case) : Verdict := Id.run do
     | .error e => return .differ "oracle" e
   let pre : List (List Str) := (c.findAll "pre").toList.map fun r => namesOf (strOf (r.getD 1 "-"))
   let comps := (compsOfTree root ++ (pre.flatMap id) ++ (pre.flatMap id).map lowerStr).eraseDups
-  if !(tabs.covers ((fl.exLists ++ fl.inLists).flatMap (·.pats)) comps) then return .differ "oracle" "missing-glob-entry"
+  if !(tabs.covers (fl.allPatterns tabs) comps) then return .differ "oracle" "missing-glob-entry"
   let delete := ((c.find "delete").map (·.getD 1 "0")) == some "1"
-  let sel : List Str → Bool → Bool × Bool :=
-    if fl.nEx > 0 then selectExclude glob fl.exLists
-    else if fl.nIn > 0 then selectInclude glob fl.inLists
-    else fun _ _ => (true, true)
+  let selO := restoreFilter tabs.cleanF glob fl.ex fl.inc
+  let sel : List Str → Bool → Bool × Bool := selO.getD fun _ _ => (true, true)
+  let exMode := !fl.exLists.isEmpty
+  let inMode := !exMode && !fl.inLists.isEmpty
   let eo := entries [] root
   let labels : List String :=
-    [if fl.nIn > 0 then "include" else if fl.nEx > 0 then "exclude" else "nofilter"] ++
+    [if inMode then "include" else if exMode then "exclude" else "nofilter"] ++
+    (if !fl.ex.files.isEmpty || !fl.ex.ifiles.isEmpty || !fl.inc.files.isEmpty || !fl.inc.ifiles.isEmpty then ["pattern-file"] else []) ++
+    (if (entries [] root).any (·.sock) then ["socket"] else []) ++
     (if delete then ["delete"] else []) ++ (if pre.isEmpty then ["empty-target"] else ["prepopulated"]) ++
     (if (fl.exLists ++ fl.inLists).any (·.insensitive) then ["insensitive"] else []) ++
     (if (fl.exLists ++ fl.inLists).any (fun l => l.pats.any (·.negated)) then ["negated"] else []) ++
     (if (fl.exLists ++ fl.inLists).any (fun l => l.pats.any (fun p => countDW p.parts > 0)) then ["dw"] else []) ++
     [s!"entries{min (eo.length / 4 * 4) 16}"]
-  let modelFatal := (fl.nEx > 0 && fl.nIn > 0) || !fl.allValid
+  let modelFatal := selO.isNone
   match c.find "res" with
   | none => return .differ "protocol" "no-res-record"
   | some r =>
@@ -47,15 +50,15 @@ def handleC20 (c : Case) : Verdict := Id.run do
     if kind == "fatal" then
       if modelFatal then return .agree false (labels ++ ["fatal"])
       else return .differ "result" s!"model accepts, impl fatal {(unhexStr (r.getD 2 "-")).getD ""}"
-    if fl.nEx > 0 && fl.nIn > 0 then return .specfalse "C20:options:include-and-exclude-accepted" ""
     if !fl.allValid then return .specfalse "C20:options:invalid-pattern-accepted" ""
+    if selO.isNone then return .specfalse "C20:options:include-and-exclude-accepted" ""
     let tgt : List (List Str) := (c.findAll "tgt").toList.map fun r => namesOf (strOf (r.getD 1 "-"))
     -- the property on the implementation's own output
     if pre.isEmpty then
-      if !specRestoreOK sel (fl.nEx > 0) root ([] :: tgt) then
+      if !specRestoreOK sel exMode root ([] :: tgt) then
         let want (e : Entry) : Bool :=
-          if fl.nEx > 0 then (sel e.path e.isDir).1 && (ancestors e.path).all fun a => (sel a true).1
-          else (sel e.path e.isDir).1
+          !e.sock && (if exMode then (sel e.path e.isDir).1 && (ancestors e.path).all fun a => (sel a true).1
+          else (sel e.path e.isDir).1)
         let sig :=
           if eo.any (fun e => !e.isDir && want e && !tgt.contains e.path) then "C20:restore:selected-item-not-written"
           else if eo.any (fun e => !e.isDir && !want e && tgt.contains e.path) then "C20:restore:unselected-item-written"
@@ -66,11 +69,13 @@ def handleC20 (c : Case) : Verdict := Id.run do
       -- non-directory snapshot items that did not exist before: present iff selected
       for e in eo do
         if !e.isDir && !pre.contains e.path then
-          let want := (sel e.path false).1 && reachable sel e.path
+          let want := !e.sock && (sel e.path false).1 && reachable sel e.path
           if tgt.contains e.path != want then
             return .specfalse (if want then "C20:restore:selected-item-not-written" else "C20:restore:unselected-item-written") (showPath e.path)
     if delete then
       if !specDeleteOK sel root false pre tgt then
+        if pre.any (fun e => eo.any (fun x => x.path == e) && !tgt.contains e) then
+          return .specfalse "C20:delete:entry-with-snapshot-name-removed" s!"pre={pre.map showPath} target={tgt.map showPath}"
         let removedUnsel := pre.any fun e => !tgt.contains e && !(List.range (e.length + 1)).any fun k => k > 0 && (sel (e.take k) false).1
         return .specfalse (if removedUnsel then "C20:delete:unselected-entry-removed" else "C20:delete:wrong-entries-removed")
           s!"pre={pre.map showPath} target={tgt.map showPath}"
